@@ -455,6 +455,10 @@ func (g *Gen) havocSV(name, srt string) string {
 // byteHeapRange: every cell of a byte array holds a byte. Stated for the initial and for every havocked incarnation of
 // the byte element heap (incarnations defined by stores inherit it: stored values are bytes); the b2s axiom of the
 // prelude reads a cell as a character only when it is in range.
+func byteRowRange(row string) string {
+	return fmt.Sprintf("(forall ((i Int)) (! (and (<= 0 (select %s i)) (< (select %s i) 256)) :pattern ((select %s i))))", row, row, row)
+}
+
 func byteHeapRange(h string) string {
 	return fmt.Sprintf("(forall ((r Int) (i Int)) (! (and (<= 0 (select (select %s r) i)) (< (select (select %s r) i) 256)) :pattern ((select (select %s r) i))))", h, h, h)
 }
@@ -539,6 +543,12 @@ func (g *Gen) store(a Addr, val string) {
 	srt := "(Array Int (Array Int " + a.Sort + "))"
 	h := g.sv(a.Heap, srt)
 	g.setSV(a.Heap, srt, fmt.Sprintf("(store %s %s (store (select %s %s) %s %s))", h, a.Base, h, a.Base, a.Idx, val))
+	if a.Heap == "E_uint8" {
+		// the byte range invariant carries over to the incarnation defined by this store when the stored value is a
+		// byte (the previous incarnation has the invariant: a consequence of array semantics, stated so that the
+		// solver need not re-derive it cell by cell)
+		g.assumeRaw(fmt.Sprintf("(=> (and (<= 0 %s) (< %s 256)) %s)", val, val, byteHeapRange(g.cur[a.Heap])))
+	}
 }
 
 // subref: reference of a by-value struct/array field embedded in the object at base.
